@@ -197,6 +197,60 @@ fn check_reuse(v: Version, sizes: &[usize]) -> Option<(String, Value)> {
     }
 }
 
+/// Batches of the given sizes on ONE real Responder, each request from its own receiving socket;
+/// every reply must be authentic for its own request (server view of the reference verifier).
+fn responder_batches(v: Version, sizes: &[usize]) -> Result<Option<(String, String)>, String> {
+    use roughenough::config::MemoryConfig;
+    use roughenough::key::LongTermKey;
+    use roughenough::responder::Responder;
+    use roughenough::stats::{AggregatedStats, ServerStats};
+    crate::inproc::init();
+    let std_sock = std::net::UdpSocket::bind("127.0.0.1:0").map_err(|e| e.to_string())?;
+    std_sock.set_nonblocking(true).map_err(|e| e.to_string())?;
+    let port = std_sock.local_addr().unwrap().port();
+    let mut sock = mio::net::UdpSocket::from_socket(std_sock).map_err(|e| e.to_string())?;
+    let mut mc = MemoryConfig::new(port);
+    mc.seed = crate::inproc::DEFAULT_SEED.to_vec();
+    let lt_pk = rtref::crypto::public_key(&crate::inproc::DEFAULT_SEED);
+    let mut ltk = LongTermKey::new(&mc.seed);
+    let mut resp = Responder::new(rv(v), &mc, &mut ltk);
+    let mut stats: Box<dyn ServerStats> = Box::new(AggregatedStats::new());
+    let mut ctr = 0u64;
+    for (bi, &n) in sizes.iter().enumerate() {
+        let clients: Vec<crate::inproc::Client> = (0..n).map(|_| crate::inproc::Client::new()).collect();
+        let mut reqs = vec![];
+        for c in &clients {
+            ctr += 1;
+            let nonce = crate::inproc::nonce(0xc04_0000 + ctr, v.nonce_len());
+            let req = rtref::responder::std_request(v, &nonce);
+            let addr = c.sock.local_addr().unwrap();
+            match v {
+                Version::Classic => resp.add_classic_request(nonce, addr),
+                Version::Ietf13 => resp.add_ietf_request(&req, nonce, addr),
+            }
+            reqs.push(req);
+        }
+        // the server's order of use: send, then reset before the next batch is collected
+        resp.send_responses(&mut sock, &mut stats);
+        resp.reset();
+        for (i, (c, r)) in clients.iter().zip(&reqs).enumerate() {
+            let mut got = c.drain();
+            let deadline = std::time::Instant::now() + std::time::Duration::from_millis(100);
+            while got.is_empty() && std::time::Instant::now() < deadline {
+                std::thread::sleep(std::time::Duration::from_millis(1));
+                got = c.drain();
+            }
+            if got.len() != 1 {
+                return Ok(Some(("missing-or-extra-reply".into(), format!("batch {} (size {}), position {}: {} datagrams", bi, n, i, got.len()))));
+            }
+            if let Err(cl) = rtref::verifier::authentic(&got[0].0, r, v, Some(&lt_pk), rtref::verifier::SERVER_VIEW) {
+                return Ok(Some((format!("issued-proof-{}", cl), format!("batch {} (size {}), position {}: the reply does not prove this request's inclusion ({})", bi, n, i, cl))));
+            }
+        }
+    }
+    Ok(None)
+}
+
 pub fn run(ctx: &Ctx) -> Result<(), String> {
     ctx.set_level("exploration");
     let evals = AtomicU64::new(0);
@@ -263,10 +317,52 @@ pub fn run(ctx: &Ctx) -> Result<(), String> {
         }
     });
 
+    // 4: the proofs as ISSUED — the real Responder (which owns a tree and a request list and reuses
+    // both) driven through its public API: every sequence of batch sizes of length <= 3 over
+    // {1,2,3,4,5} (thorough: <= 4 over 1..=6, plus pairs up to 64), both protocols; the reply to the
+    // request at every position proves THAT request's inclusion in the signed root
+    let mut rhist: Vec<(Version, Vec<usize>)> = vec![];
+    {
+        let set: Vec<usize> = ctx.tier.pick((1..=5).collect(), (1..=6).collect());
+        let maxlen = ctx.tier.pick(3usize, 4);
+        for v in [Version::Classic, Version::Ietf13] {
+            for l in 1..=maxlen {
+                for mut idx in 0..set.len().pow(l as u32) {
+                    let mut sizes = vec![];
+                    for _ in 0..l {
+                        sizes.push(set[idx % set.len()]);
+                        idx /= set.len();
+                    }
+                    rhist.push((v, sizes));
+                }
+            }
+            for a in ctx.tier.pick(vec![1usize, 2, 33, 64], vec![1, 2, 3, 31, 32, 33, 63, 64]) {
+                for b in ctx.tier.pick(vec![1usize, 2, 33, 64], vec![1, 2, 3, 31, 32, 33, 63, 64]) {
+                    rhist.push((v, vec![a, b]));
+                }
+            }
+        }
+    }
+    let failed: Mutex<Option<String>> = Mutex::new(None);
+    par_for(rhist.len(), 8, |k, _| {
+        let (v, sizes) = &rhist[k];
+        evals.fetch_add(1, Relaxed);
+        match catch(|| responder_batches(*v, sizes)) {
+            Err(p) => ctx.violation("panic", "responder", v.name(), json!({"kind":"responder-batches","version":v.name(),"sizes":sizes,"panic":p})),
+            Ok(Err(e)) => *failed.lock().unwrap() = Some(e),
+            Ok(Ok(None)) => {}
+            Ok(Ok(Some((clause, msg)))) => ctx.violation(&clause, "responder", &format!("{}/issued-proofs", v.name()), json!({"kind":"responder-batches","version":v.name(),"sizes":sizes,"message":msg})),
+        }
+    });
+    if let Some(e) = failed.lock().unwrap().take() {
+        return Err(e);
+    }
+    ctx.cov("responder_batch_sequences", json!(rhist.len()));
+
     let ev = evals.load(Relaxed);
     ctx.cov("evaluations", json!(ev));
     ctx.cov("distinct_nontrivial", json!(nontrivial.load(Relaxed) + reuse_n));
-    ctx.cov("rule", json!("shapes: every leaf count n in 1..=255 x both hash profiles x 5 leaf families (incl. request-sized leaves sharing a 640-byte prefix), every position i<n (completeness: own recompute and independent recompute with the protocol's node width); binding (distinct leaves): every other leaf, every other in-range index, one-bit change per path element (thorough: per path byte), one element appended, first/last element removed; reuse: all ordered pairs of batch sizes from the tier's size set and all triples over {1,2,3,4,5,7,8,9,16,17} on one reused tree vs fresh trees. Non-trivial = a position in a tree with n>=2 (path non-empty) or a reuse history; evaluations counts every root recomputation/comparison."));
+    ctx.cov("rule", json!("shapes: every leaf count n in 1..=255 x both hash profiles x 5 leaf families (incl. request-sized leaves sharing a 640-byte prefix), every position i<n (completeness: own recompute and independent recompute with the protocol's node width); binding (distinct leaves): every other leaf, every other in-range index, one-bit change per path element (thorough: per path byte), one element appended, first/last element removed; reuse: all ordered pairs of batch sizes from the tier's size set and all triples over {1,2,3,4,5,7,8,9,16,17} on one reused tree vs fresh trees. issued proofs: the real Responder driven with every sequence of batch sizes of length <= 3 over {1..5} (thorough <= 4 over {1..6}) and pairs over {1,2,33,64}, both protocols, each reply authentic for its own request. Non-trivial = a position in a tree with n>=2 (path non-empty) or a reuse history; evaluations counts every root recomputation/comparison."));
     ctx.cov("shapes", json!(shapes));
     ctx.cov("reuse_histories", json!(reuse_n));
     ctx.cov("binding_sizes", json!(binding_ns.len()));
@@ -286,6 +382,10 @@ pub fn replay_case(c: &Value) -> Result<Option<String>, String> {
         _ => return Err("version".into()),
     };
     match c["kind"].as_str() {
+        Some("responder-batches") => {
+            let sizes: Vec<usize> = c["sizes"].as_array().ok_or("sizes")?.iter().map(|x| x.as_u64().unwrap_or(1) as usize).collect();
+            crate::util::on_named_thread("worker-0", move || responder_batches(v, &sizes).map(|r| r.map(|(a, b)| format!("{} {}", a, b))))
+        }
         Some("shape") => {
             let fam = c["family"].as_str().ok_or("family")?;
             let n = c["n"].as_u64().ok_or("n")? as usize;
